@@ -26,7 +26,7 @@ RUN_TIMEOUT_S = 60.0
 MIN_BUDGET = 150
 
 TIERS = {
-    'quick': {'runs': 16000, 'classes': 8, 'budget_s': 75},
+    'quick': {'runs': 16000, 'classes': 8, 'budget_s': 60},
     'thorough': {'runs': 250000, 'classes': 32, 'budget_s': 1100},
 }
 
